@@ -110,8 +110,15 @@ func runWorld(run *vh.Run, label string, wi, nOps int) {
 		run.Inconclusive(label + ": " + err.Error())
 		return
 	}
+	step := 0
 	for w.ops < nOps {
-		ops := w.genBlock(nOps - w.ops)
+		var ops []*op
+		if step < 3 {
+			ops = w.prelude()[step] // built block by block: nonces and base fee are read from the committed state
+			step++
+		} else {
+			ops = w.genBlock(nOps - w.ops)
+		}
 		if len(ops) == 0 {
 			continue
 		}
